@@ -1,7 +1,7 @@
 (* C02 property theorems. This file contains only statements closed by
    [exact lemma] and Print Assumptions. *)
 From V Require Import Common.Base C02.Graph C02.Order C02.SpecESM C02.Wrap C02.Resolve C02.ResolveSpec
-  C02.DataUrl C02.SpecDataUrl C02.OrderProofs C02.OrderEsmProofs C02.ResolveProofs C02.WrapProofs C02.DataUrlProofs C02.ClassifyProofs C02.Emit C02.EmitProofs C02.ResolveChainProofs C02.ScanEsmProofs.
+  C02.DataUrl C02.SpecDataUrl C02.OrderProofs C02.OrderEsmProofs C02.ResolveProofs C02.WrapProofs C02.DataUrlProofs C02.ClassifyProofs C02.Emit C02.EmitProofs C02.ResolveChainProofs C02.ScanEsmProofs C02.ResolveDen C02.SpecDenProofs.
 From Coq Require Import Permutation.
 
 (* every file of the chunk is emitted at most once ("every module body runs at most once") *)
@@ -202,3 +202,18 @@ Theorem order_is_esm_by_distance : forall g keys e t0 l,
   spec_eval_order g e = Some (filter nz l).
 Proof. exact order_is_esm_keys. Qed.
 Print Assumptions order_is_esm_by_distance.
+
+(* ECMA-262 ResolveExport with its shared, mutated resolve set: on every graph whose re-export
+   relation (export stars and indirect exports) is acyclic - rank certificate [rk] - the result
+   is the set-free denotation: no candidate -> null, one candidate binding -> that binding,
+   two different candidates -> ambiguous.  In particular returning null for a (module, name)
+   pair that an earlier branch already visited never changes the answer. *)
+Theorem resolve_set_revisit_harmless : forall g rk m name R,
+  ranked_all g rk = true ->
+  spec_resolve_export g m name = Some R -> R = classify_cands (den g rk m name).
+Proof.
+  intros g rk m name R Hr H. unfold spec_resolve_export in H.
+  destruct (spec_resolve (resolve_fuel g) g m name []) as [[R0 rs']|] eqn:E; [|discriminate].
+  inversion H; subst. exact (spec_resolve_is_den g rk Hr _ _ _ _ _ E).
+Qed.
+Print Assumptions resolve_set_revisit_harmless.
